@@ -137,7 +137,7 @@ theorem C11_composite_default_fields (p : Program) (hchk : PlanCheck.checkProgU 
     ∃ ws, v' = .struct ws ∧
       ∀ (i : Nat) (tf : FieldInfo) (tty : Ty), tfs.toList[i]? = some (tf, tty) →
         ∃ f, plans.toList[i]? = some f ∧
-          FieldOutcome p.conv.env (CtorSig p) sfs.toList fs tf tty
+          FieldOutcome p.conv.env (CtorSig p) gm.source (.struct fs) tf tty
             (erase.eraseFields (ctorVal.ctorFields p.conv.env 63 tfs.toList)) (erase.eraseFields ws) f := by
   obtain ⟨ws, hv', himg⟩ := default_struct_onto p (checkProgU_sound p hchk) fuel m gm ctor tp plans upd hm hb sfs tfs hs ht fs hwt
     cs n v' n' hev
